@@ -66,7 +66,7 @@ pub fn scenario(rec: &mut Rec, ctx: &Ctx, idx: u64, rng: &mut rand_chacha::ChaCh
   let mut sc = Scenario::gen(rng, thorough);
   // a slice of the scenarios is forced small so that exhaustive selection
   // enumeration happens often
-  let exhaustive_cap = if thorough { 6 } else { 5 };
+  let exhaustive_cap: usize = if thorough { 6 } else { 5 };
   let force_small = idx % 4 == 0;
   if force_small {
     sc.t = rng.gen_range(1..=3);
@@ -79,7 +79,7 @@ pub fn scenario(rec: &mut Rec, ctx: &Ctx, idx: u64, rng: &mut rand_chacha::ChaCh
   }
   let t = sc.t as usize;
   let extra = if force_small {
-    rng.gen_range(0..=(exhaustive_cap - t).min(t + 1))
+    rng.gen_range(0..=exhaustive_cap.saturating_sub(t).min(t + 1))
   } else {
     rng.gen_range(0..=t.min(10))
   };
